@@ -5,7 +5,7 @@
 # several seeds can run in parallel. (Equivalent to: git -C /repo apply patch.diff;
 # run the check; git -C /repo checkout -- .)
 d=/verif/seeded/$1; tier=${2:-quick}
-id=${1:0:3}
+id=${PROP:-${1:0:3}}   # PROP=<other id>: run another property's check against this change
 wt=/tmp/seedwt/$1
 rm -rf $wt; mkdir -p /tmp/seedwt
 git -C /repo worktree prune
@@ -21,6 +21,7 @@ grep "INCONCLUSIVE" /tmp/seedrun_$1.log | cut -c1-300 | head -3
 python3 - "$d" "$1" "$tier" "$rc" <<'PY'
 import json,sys,os,re
 d,name,tier,rc=sys.argv[1:5]
+if os.environ.get("PROP"): tier=tier+"@"+os.environ["PROP"]
 mp=os.path.join(d,'meta.json')
 m=json.load(open(mp)) if os.path.exists(mp) else {"property":name[:3],"name":name[4:]}
 log=open('/tmp/seedrun_%s.log'%name).read()
